@@ -96,8 +96,41 @@ func (f *fake[T]) cur(adv bool) (T, error) {
 	return v, nil
 }
 
-func (f *fake[T]) Next(context.Context) (T, error) { return f.cur(true) }
-func (f *fake[T]) Head(context.Context) (T, error) { return f.cur(false) }
+// like the datastore iterators and storage.StaticIterator, the fake honours its caller's context
+func (f *fake[T]) Next(ctx context.Context) (T, error) {
+	if err := ctx.Err(); err != nil {
+		var zero T
+		return zero, err
+	}
+	return f.cur(true)
+}
+func (f *fake[T]) Head(ctx context.Context) (T, error) {
+	if err := ctx.Err(); err != nil {
+		var zero T
+		return zero, err
+	}
+	return f.cur(false)
+}
+
+// flipCtx is a context that reports cancellation from its k-th Err call on: the
+// harness, not the scheduler, decides between which two looks at the context a
+// consumer's request is cancelled.
+type flipCtx struct {
+	context.Context
+	mu    sync.Mutex
+	calls int
+	at    int
+}
+
+func (c *flipCtx) Err() error {
+	c.mu.Lock()
+	defer c.mu.Unlock()
+	c.calls++
+	if c.calls >= c.at {
+		return context.Canceled
+	}
+	return nil
+}
 func (f *fake[T]) IsOrdered() bool                 { return true }
 func (f *fake[T]) Stop() {
 	f.mu.Lock()
